@@ -787,6 +787,26 @@ def check_status_across_modes(ctx, rng):
     K.rmtree(root)
 
 
+def check_child_failure(ctx, rng, n):
+    """a file read through a command (--pre / -z) that fails on its own x every mode that stops reading early x -j x
+    alone / next to a healthy file: status 2 (unless a match under -q), diagnostic, other results kept — the family
+    and its timing argument are in props/child_failure.py (shared with C18)"""
+    from props import child_failure as CF
+    live = CF.run_family(ctx, rng, n, "C15")
+    for c in live:
+        # the status contract once more through this property's own table
+        any_error = c["failed"]
+        ref_match = c["ref"]["status"] == 0
+        any_match = (ref_match and not c["failed"]) or c["layout"] == "pair"
+        want = property_status(any_match, c["mode"] == "-q", any_error)
+        if not c["r"]["timeout"] and c["r"]["status"] != want:
+            ctx.violation("status contract with a failing reader command: rg %s exits %d, the table says %d (a file whose "
+                          "command failed%s)" % (" ".join(c["args"]), c["r"]["status"], want,
+                                                 " while rg stopped reading early" if c["stops"] else ""),
+                          dict(kind="child-failure-status", args=" ".join(c["args"]), script=c.get("script"),
+                               status=c["r"]["status"], want=want, err=repr(c["r"]["err"][:200])))
+
+
 # ----------------------------------------------------------------------------------------------- entry points
 
 def corpus():
@@ -868,6 +888,7 @@ def run(ctx):
     check_fault_scenarios(ctx, [gen_scenario(rng) for _ in range(n)], avail)
     check_pipe(ctx, rng, ctx.count(200))
     check_disappearing(ctx, rng, ctx.count(20))
+    check_child_failure(ctx, rng, ctx.count(40))
     K.report_drift(ctx, GEN_TARGETS, bool(ctx.violations))
     ctx.assumptions += [
         "the abstract walk (items, per-file result, bytes printed) is derived from the generated tree by this check's "
